@@ -2,12 +2,13 @@
 THEOREMS_TIED = ["Rustic.Props.C02.used_key_attributed", "Rustic.Props.C02.decision_table",
                  "Rustic.Props.C02.prune_covers_used_keys", "Rustic.Props.C02.prune_preserves_readable",
                  "Rustic.Props.C02.marked_packs_stay", "Rustic.Props.C02.recover_brings_back",
-                 "Rustic.Props.C02.normal_index_entry_wins_over_mark"]
+                 "Rustic.Props.C02.normal_index_entry_wins_over_mark",
+                 "Rustic.Props.C02.prune_failed_write_keeps_snapshots", "Rustic.Props.C02.prune_failed_repack_write_keeps_index"]
 
 TRUSTED = [
     "hand-written model lean/Rustic/Model/{Prune,Repo}.lean of commands/prune.rs (PrunePlan::new, count_used_blobs, PackInfo::from_pack, "
     "decide_packs, decide_repack, check_existing_packs, filter_index_files, prune_repository) and blob/packer.rs PackSizer",
-    "correspondence harness harness/src/c02.rs + c02_hist.rs (hooks verif::prune::{plan_from_parts,plan_at,pack_info}, verif::packer::pack_sizer, "
+    "correspondence harness harness/src/c02.rs + c02_hist.rs (hooks verif::prune::{plan_from_parts,plan_at,pack_info,MIN_INDEX_LEN}, verif::packer::pack_sizer, "
     "verif::repository::save_file); the hook `finish_plan` repeats the call sequence of PrunePlan::from_prune_options with the plan time injected — "
     "the histories therefore also run the unhooked Repository::prune_plan and compare",
     "constants translator tools/gen_constants.py + tools/constants/C02.py",
@@ -26,23 +27,34 @@ ASSUMPTIONS = [
 RULE = ("ops from harness/src/c02.rs, one splitmix64 PRNG (VERIF_SEED): `hist` (generated first) = real histories: backup of an evolving source "
         "(also of an earlier version again: blobs living in marked packs are uploaded again), concurrent backup pairs, tree/data id collision, forget, "
         "resurrect (`u`), index duplication, a second handle with a stale index whose backup overlaps the prunes in between (`s`…`a<k>`), a backup that is HALF DONE while prune plans (`h<k>`: its pack files are uploaded, index and snapshot not yet written, so a non-instant prune marks the packs as unreferenced; `e`: it finishes — the packs are then listed normally AND marked — followed by a prune past keep-delete that must keep them; `h` without `e` = interrupted backup), prune with "
-        "random options (keep-delete 0/1h/23h, instant-delete, limits) and injected time; 8/10 of the histories start with one of four shapes "
-        "{prune while a backup is half done, then the backup finishes, then prune past keep-delete; keep-delete>0 + re-upload of marked blobs + repack of the partly used new packs; backup overlapping the marking prune then prune (often "
-        "instant); packs older than keep-delete when marked, second prune right away, then the data is needed again}, 2/10 are purely random. "
+        "random options (keep-delete 0/1h/23h, instant-delete, limits) and injected time, a prune with a FAULT SWEEP (`q`: on copies of the store every "
+        "(long runs: sampled, always around the last data pack write) storage operation of the run — repacked tree pack, the repacked data pack "
+        "written by finalize, index write, index / pack removals — fails once via MemBackend fail_only), a prune whose clean-up of old index files "
+        "is interrupted (`z`: the index file of one snapshot survives next to the rebuilt one = duplicate index entries), control of the order in "
+        "which index files arrive at the planner (`o`: smallest / largest first); 10/12 of the histories start with one of five shapes "
+        "{REPACKING prune (partly used data packs, max-unused 0, mark-only or instant) under the fault sweep, then often the deleting prune under faults; prune while a backup is half done, then the backup finishes, then prune past keep-delete; keep-delete>0 + re-upload of marked blobs + repack of the partly used new packs; backup overlapping the marking prune then prune (often "
+        "instant); packs older than keep-delete when marked, second prune right away, then the data is needed again}, 2/12 are purely random (incl. `q`); plus 3 (thorough 12) BIG-INDEX histories: fixed-size chunker with 8-byte "
+        "chunks, two backups with a large file of ~0.6 x MIN_INDEX_LEN (hook verif::prune::MIN_INDEX_LEN) records each and a small one, a merging "
+        "prune interrupted so that one snapshot's old index file survives beside the merged index file (>= MIN_INDEX_LEN blobs), forget, (instant) "
+        "prune with the small / large index file arriving first, backup of the forgotten version again. "
         "`plan` = crafted index states (1-3 index files, <= 16 packs, blob ids from a universe of <= 8 ids used under both types, duplicate blobs "
         "inside/across packs, duplicate pack entries incl. used+marked, marked packs with times around keep-delete, missing/None times, packs missing or "
         "with wrong size, unreferenced packs, >255 duplicates, used ids absent from the index) x all option flags x limits (unlimited / sizes / 0..99 %) "
         "x pack sizers; `info` = PackInfo::from_pack on pack sequences. Non-trivial = plan with at least one decision / history with a prune; "
         "distinct by hash of (op, observation).")
-EXPLANATION = ("Theorems (lean/Rustic/Props/C02.lean, 21, none partial): from_pack accounting, stats_no_underflow, every used key attributed to a pack that is "
+EXPLANATION = ("Theorems (lean/Rustic/Props/C02.lean, 23, none partial): from_pack accounting, stats_no_underflow, every used key attributed to a pack that is "
                "kept/repacked/recovered, decision table, no pack undecided, filter_index_files rebuilds the index file of every pack that changes "
                "(RepackRebuilt derived), execution covers every used key, removals only of Delete packs unless instant-delete, marked packs stay until "
                "keep-delete passed, recover brings back, a pack that some index file lists normally is planned as unmarked whatever marked entries exist for it (never Delete / KeepMarked, not removed by a non-instant prune: normal_index_entry_wins_over_mark), and prune_preserves_readable: after every prefix of the executed operation list of an accepted "
                "plan every snapshot of a consistent repository is readable (bridge from the prune model to the C03 protocol; non-instant, and instant "
-               "without early-delete-index). Correspondence: per-pack decision, all PruneStats counters, rebuilt index files, remaining used ids, and the "
+               "without early-delete-index); prune_failed_write_keeps_snapshots: a run whose k-th storage operation fails (any k: repacked pack incl. the last, "
+               "index write, removals) reports failure and leaves a consistent repository with every snapshot readable; "
+               "prune_failed_repack_write_keeps_index: a failure in the writing phase stops the run before any index file or listed pack is removed. Correspondence: per-pack decision, all PruneStats counters, rebuilt index files, remaining used ids, and the "
                "executed storage operations (as sets per phase, phase order checked) of the real code equal the model's on every crafted case. Oracles on "
                "real histories: check(read_data) clean and every snapshot reads back after every step; a non-instant prune removes only packs whose mark "
-               "time AS RECORDED BY THE HARNESS (time of the marking prune) is >= keep-delete old; hook plan == Repository::prune_plan.")
+               "time AS RECORDED BY THE HARNESS (time of the marking prune) is >= keep-delete old; hook plan == Repository::prune_plan; fault sweep: a prune "
+               "with a failed storage operation returns Err, check(read_data) is clean and every snapshot reads back afterwards, a fault-free retry "
+               "succeeds and is clean; an interrupted index clean-up is reported as Err.")
 
 
 def nontrivial(op, obs):
